@@ -380,7 +380,7 @@ func (r *run) timeTokens() {
 	const sec = int64(time.Second)
 	base := int64(1700000000) * sec
 	type tc struct{ window, t0 int64 }
-	cs := []tc{{30 * sec, base}, {-30 * sec, base + 999}, {1, base}, {0, base}, {2, 0}, {5 * sec, -base}, {3600 * sec, base + 5}}
+	cs := []tc{{30 * sec, base}, {-30 * sec, base + 999}, {1, base}, {0, base}, {2, 0}, {5 * sec, -base}, {3600 * sec, base + 5}, {-1, base + 7}}
 	for i := 0; i < 2*r.scale; i++ {
 		cs = append(cs, tc{int64(r.rng.Intn(1000000)) + 1, base + int64(r.rng.U64()%uint64(1e17))})
 	}
@@ -406,7 +406,7 @@ func (r *run) timeTokens() {
 			continue
 		}
 		r.tsCheckCase(1+(k%(len(hmacKeys)-1)), s.window, s.t0, tok, &Mut{Tok: tokid, Class: "otherkey"})
-		if ci < 2 || ci >= 7 {
+		if ci < 2 || ci >= 8 {
 			tsv := signer.NewTimeSigner(hmacKeys[k], time.Duration(s.window))
 			tsv.TimeFunc = at(s.t0)
 			r.sweep(&sweepSpec{fam: "timetoken", tokid: tokid, issued: tok, sample: 3,
@@ -487,7 +487,7 @@ func (r *run) rsaTime() {
 	initRSA()
 	const sec = int64(time.Second)
 	base := int64(1700000000) * sec
-	for ci, s := range []struct{ window, t0 int64 }{{30 * sec, base}, {-7 * sec, base + 3}, {1, 5}, {0, base}} {
+	for ci, s := range []struct{ window, t0 int64 }{{30 * sec, base}, {-7 * sec, base + 3}, {1, 5}, {0, base}, {-1, base + 9}} {
 		ki := ci % len(rsaPri)
 		blk, err := signer.VerifRSASignTime(rsaPri[ki], time.Unix(0, s.t0))
 		if err != nil {
